@@ -154,6 +154,8 @@ class Tensor:
         else:
             result = self
         for axis, value in non_scalar_indices:
+            # Scalar indices in front of this axis have removed their axes.
+            axis -= sum(1 for squeezed_axis in to_squeeze if squeezed_axis < axis)
             result = op.Gather(result, value, axis=axis)
 
         return result
